@@ -10,6 +10,8 @@ ALL = ['C%02d' % i for i in range(1, 21)]
 EXTRA2 = {'C01': ' Rounds 6-7: the bundled providing middlewares with non-default names and several fields; undeliverable names (_error, self) in the reference.', 'C02': " Rounds 6-7: shared ContextProcessor histories, bundled providers' values.", 'C03': ' Rounds 6-7: one-shot iterables, the Cline spelling, stock middlewares in the middle of the stack, a route added after the meta page was served.', 'C04': " Rounds 6-7: bundled middlewares' provided names x 8 argument shapes, prefix bindings as a source, decorated functions, documented-reserved names (found and fixed: _error, self).", 'C05': " Rounds 6-7: segments ending in a newline (found and fixed: $ vs \\\\Z), dot segments, '+' paths through the development server's parsing.", 'C06': ' Rounds 6-7: requests while the table grows, profile / development-server / absolute-form variants, bindings named like error options.', 'C07': ' Rounds 6-7: development-server environ seam, 405 histories, Cline placement, embedded root route.', 'C08': ' Rounds 6-7: render_error returning no response (found and fixed), keyword-only handler twin, lazily failing JSON, unsupported mimetype, profiled requests in the histories.', 'C09': ' Rounds 6-7: client view of every body (content coding, declared charset), gzip application, rendered route.', 'C10': ' Rounds 6-7: 4-tuple spelling, WSGI-wrapping middleware types.', 'C11': ' Rounds 6-7: failing operations retried, render-factory isolation, one error instance shared by applications (found and fixed), shared Redirector / meta peripherals.', 'C12': ' Rounds 6-7: cold-application pairs (fresh World per execution), GET/POST pair on one renderer, JSONP callbacks, cold-process executions (one fresh interpreter per schedule) for the debug error pages.', 'C13': ' Rounds 6-7: instance-level unique flag, reroutes behind stock middlewares, request counter past 2**32 / 2**64, route-less application.', 'C14': ' Rounds 6-7: add at index 0, future-dated file.', 'C15': ' Rounds 6-7: text-chunk bodies, missing Content-Type, read-only contexts (found and fixed), Redirector endpoint.', 'C16': ' Rounds 6-7: two cookies behind gzip, equal-not-identical expiry constants, returned-403 operation, sibling cookie applications.', 'C17': ' Rounds 6-7: non-Response responses, non-dict mappings, renderers behind GzipMiddleware.', 'C18': ' Rounds 6-7: non-identifier resource names (found and fixed), host context processors (found and fixed: secret in the JSON view), static-first mount, SCRIPT_NAME.', 'C19': ' Rounds 6-7: explicit code=, embedded application with its own StatsMiddleware.', 'C20': ' Rounds 6-7: long non-ASCII texts, empty and slash-only PATH_INFO.'}
 
 # what the drivers gained after the table below was written (rounds 3-5); appended to the level text
+EXTRA3 = {'C01': ' Round 8: every documented naming style of the extraction middlewares (string, generator, tuple).', 'C02': ' Round 8: the same naming styles, values checked.', 'C03': ' Round 8: stock middleware classes configured differently per level (one instance of a unique type, the outermost), RerouteWSGI endpoints behind tracing and gate middlewares.', 'C04': ' Round 8: render_error functions through 4-tuples and add(), NameError required.', 'C05': ' Round 8: malformed patterns through six further route spellings, redirect-mode end-to-end layer under a mount point.', 'C06': ' Round 8: failing add() attempts between insertions, a static application in front of later routes.', 'C07': ' Round 8: StaticFileRoute shape, absolute-form request targets with a foreign Host header.', 'C08': ' Round 8: a route behind stats + gzip + cache at every position, request counters past 2**32 / 2**64 for the built-in probes.', 'C09': ' Round 8: Content-Length against the bytes sent, errors constructed with mimetype= and served directly.', 'C10': ' Round 8: stock context processors with a defaulted name on offer only further out (56 configurations).', 'C11': ' Round 8: all pairs of registering methods on two Cline applications and the module-level default application.', 'C12': ' Round 8: two gzip kinds (one GzipMiddleware), two static kinds (one search path), the latter also on a cold application.', 'C13': ' Round 8: strict-mode applications whose routes consist of optional bindings only.', 'C14': ' Round 8: static applications behind HTTPCacheMiddleware.', 'C15': ' Round 8: route-level context processor under application-level subclasses, Vary on uncompressed variants.', 'C16': ' Round 8: default cookie names, revalidating clients (304) in the two-cookie histories.', 'C17': ' Round 8: renderers behind the stock context processors, form POST with a field named format.', 'C18': ' Round 8: positional cookie configuration, context defaults that cannot be copied.', 'C19': ' Round 8: stats pages as a browser asks for them.', 'C20': ' Round 8: request lines beyond latin-1 through the development server environ.'}
+
 EXTRA = {
     'C01': '`context` at every chain position, embedded and strict all-optional layers, a plain sibling route after every '
            'configuration, parent/child middleware classes, a functools.wraps wrapper around an already inspected function.',
@@ -292,7 +294,7 @@ def main():
             continue
         engine, tech, text, note, ref = CHECKS[cid]
         if cid in EXTRA:
-            text = text + ' Added by the later rounds of seeded changes (DESIGN.md 9.5): ' + EXTRA[cid] + EXTRA2.get(cid, '')
+            text = text + ' Added by the later rounds of seeded changes (DESIGN.md 9.5): ' + EXTRA[cid] + EXTRA2.get(cid, '') + EXTRA3.get(cid, '')
         checks.append({
             'property_id': cid,
             'quick_cmd': '/venv/bin/python check.py %s --tier quick' % cid,
